@@ -1,6 +1,6 @@
 (* C14 Model construction stays well-formed; rejected additions change nothing. *)
 From Coq Require Import List NArith.
-From RV Require Import Scalar LinAlg3 Spatial ListArr ModelDef C14Thm.
+From RV Require Import Scalar LinAlg3 Spatial ListArr ModelDef C14Thm KinThm GoodThm.
 Section P.
   Context {T : Type} (O : Ops T).
   (* An addition that is rejected returns the model exactly as it was (every joint kind,
@@ -26,7 +26,16 @@ Section P.
   Theorem C14_every_construction_sequence_is_wellformed (ops : list (AddOp (T:=T))) (M' : @Model T) :
     run O (model0 O) ops = Some M' -> WF M'.
   Proof. exact (construction_from_empty_WF O ops M'). Qed.
+  (* Every model built from the empty model is well-formed AND carries a workspace satisfying the invariant
+     `Good` that the theorems of C01-C13 assume of their incoming workspace (arities match the joint kinds, constant
+     motion-subspace entries in place, custom joints registered), and its custom joints occupy pairwise distinct
+     slots (the other standing hypothesis of those theorems): both are discharged by construction. *)
+  Theorem C14_constructed_models_satisfy_the_workspace_invariant
+    (oeqb_spec : forall x y : T, oeqb O x y = true <-> x = y) (ops : list (AddOp (T:=T))) (M' : @Model T) :
+    run O (model0 O) ops = Some M' -> WF M' /\ Good O M' (ws M') /\ CustInj M'.
+  Proof. exact (constructed_models_are_good O oeqb_spec ops M'). Qed.
 End P.
 Print Assumptions C14_rejected_addition_changes_nothing.
 Print Assumptions C14_addition_preserves_wellformedness.
 Print Assumptions C14_every_construction_sequence_is_wellformed.
+Print Assumptions C14_constructed_models_satisfy_the_workspace_invariant.
